@@ -144,6 +144,14 @@ func runC03(c *core.Ctx) {
 		setCase(c, "int-huge", u, func(a, b int) bool { return a < b }, func(v int) string { return fmt.Sprint(v) })
 		return
 	}
+	if c.Index%20 == 19 {
+		// interface-typed members of mixed dynamic types: 1, int64(1), "1", 1.0, true, nil
+		// and a struct are seven different members
+		u := []any{1, int64(1), "1", 1.0, true, nil, p8{1, 1}, uint8(1)}[:c.R.Range(2, 8)]
+		key := func(v any) string { return fmt.Sprintf("%T:%v", v, v) }
+		setCase(c, "any-mixed", u, func(a, b any) bool { return key(a) < key(b) }, nil)
+		return
+	}
 	switch c.R.Intn(4) {
 	case 3: // larger universes: bigger dirty maps, promotion thresholds, many deleted entries
 		n := c.R.Range(12, 40)
@@ -597,6 +605,40 @@ func setCase[T comparable](c *core.Ctx, tname string, univ []T, less func(a, b T
 		return
 	}
 	c.Count("pairing_"+pairing, 1)
+	// the zero value of the map-backed set (a nil map) as RECEIVER of the read-only and
+	// binary operations: it is the empty set
+	if r.Chance(1, 8) {
+		var z tmaps.Set[T]
+		wantB := sorted(B.m)
+		if p, pv := core.Catch(func() {
+			if z.Len() != 0 || len(z.Slice()) != 0 || z.Has(univ[0]) {
+				panic("nil set is not empty")
+			}
+			if u := sortS(z.Union(B.s).Slice()); !eqSlice(u, wantB) {
+				panic(fmt.Sprintf("nil.Union(B)=%v want %v", u, wantB))
+			}
+			if u := sortS(z.SymDiff(B.s).Slice()); !eqSlice(u, wantB) {
+				panic(fmt.Sprintf("nil.SymDiff(B)=%v want %v", u, wantB))
+			}
+			if z.Intersect(B.s).Len() != 0 || z.SetDiff(B.s).Len() != 0 {
+				panic("nil.Intersect(B) / nil.SetDiff(B) not empty")
+			}
+			cl := z.Clone()
+			if !cl.Add(univ[0]) || !cl.Has(univ[0]) || cl.Len() != 1 {
+				panic("the clone of the nil set cannot take a member")
+			}
+			if z != nil || z.Len() != 0 {
+				panic("the nil receiver was modified")
+			}
+		}); p {
+			fail("nil-map-set-receiver", fmt.Sprintf("the zero value of maps.Set as receiver: %v", pv))
+			return
+		}
+		if !check(B, "nil-set-receiver") {
+			return
+		}
+		c.Count("nil_map_set_receiver_checks", 1)
+	}
 	selfArg := r.Chance(1, 10)
 	model := func(op string, a, b map[T]bool) map[T]bool {
 		out := map[T]bool{}
